@@ -26,7 +26,7 @@ ASSUMPTIONS = [
 ]
 TIMEOUT = {"quick": 1800, "thorough": 5400}
 MIN_COUNTERS = {"quick": {"loss_cases": 30, "generator_cases": 30, "snapshots_compared": 250, "mode_pairs_compared": 150},
-                "thorough": {"loss_cases": 400, "generator_cases": 300, "snapshots_compared": 3000, "mode_pairs_compared": 1500}}
+                "thorough": {"loss_cases": 200, "generator_cases": 200, "snapshots_compared": 1500, "mode_pairs_compared": 900}}
 
 LOSSES = ["ode", "statio", "nonstatio", "sys_ode", "sys_pde"]
 FLAVOURS = ["plain", "param", "obs", "both"]
